@@ -60,4 +60,18 @@ CLAIMS['C13'] = {
     'note': _NOTE,
 }
 
+CLAIMS['C12'] = {
+    'text': 'Resources: with __remove_resources__/__insert_resources__/Tracked.set inlined, '
+            'every path of BorrowedResources.__aenter__/__aexit__ (3 receivers, exc in '
+            '{none, exception, GeneratorExit}, every signal class at every suspension site) is '
+            'balanced: what changed hands is given back synchronously or by a dispatched '
+            'compensation; each debit is dominated by the availability predicate (test, await '
+            'post-condition or usage assertion); claim/borrow/guard use one predicate; claim '
+            'never suspends before taking; forced close is suspension free; generated level '
+            'arithmetic uses the right symbols. One genuine defect is recorded as known '
+            'finding (nested borrow outliving its share). Level values after a history are '
+            'not decided.',
+    'note': _NOTE,
+}
+
 NOT_APPLICABLE = {}
